@@ -305,6 +305,35 @@ Section DriverExtProofs.
       apply db_names_in. split; [exact Hi|intros []].
   Qed.
 
+  (* every database is listed at most once: the names of a ListDatabases
+     result are pairwise distinct *)
+  Lemma nodup_map_filter {A B} (h : A -> B) (f : A -> bool) l :
+    NoDup (map h l) -> NoDup (map h (filter f l)).
+  Proof.
+    induction l as [|x t IH]; cbn [map filter]; intro H; [constructor|].
+    inversion H as [|? ? Hn Ht]; subst. destruct (f x); cbn [map]; [|apply IH; exact Ht].
+    constructor; [|apply IH; exact Ht].
+    intro Hin. apply Hn. apply in_map_iff in Hin. destruct Hin as [y [E Hy]].
+    apply filter_In in Hy. apply in_map_iff. exists y. split; [exact E|apply Hy].
+  Qed.
+
+  Theorem list_databases_names_distinct c q res :
+    no_error (fun d => matchf d q) (map (db_spec (cat_ns c)) (db_names (cat_ns c) [])) ->
+    txn_list_databases matchf c q = inl res ->
+    NoDup (names_of res).
+  Proof.
+    intros NE H. unfold txn_list_databases in H. rewrite (filter_sorted_ok _ q NE) in H.
+    inversion H; subst; clear H. unfold names_of.
+    eapply Permutation_NoDup.
+    - apply Permutation_map. apply stable_sort_perm.
+    - apply nodup_map_filter. rewrite map_map. cbn [db_spec Get].
+      assert (E : map (fun x => Get (db_spec (cat_ns c) x) "name") (db_names (cat_ns c) []) =
+                  map VString (db_names (cat_ns c) [])).
+      { apply map_ext. intro x. reflexivity. }
+      rewrite E. apply FinFun.Injective_map_NoDup; [|apply db_names_nodup].
+      intros a b Hab. inversion Hab. reflexivity.
+  Qed.
+
   (* ---------------------------------------------------------------- *)
   (* listings follow the writes: a created collection is listed, a dropped
      one is not *)
